@@ -22,6 +22,10 @@ type bvBuf struct {
 	Cells map[string]BV
 	Len   *Term // nil: unknown
 	Zero  bool  // every byte is zero
+	// HavocFrom >= 0: bytes at absolute offsets >= HavocFrom without a cell are unknown (overwritten by code
+	// the interpreter did not follow)
+	HavocFrom int64
+	Havoc     bool
 }
 
 type bvView struct {
@@ -115,6 +119,7 @@ type bvPath struct {
 	Defers  []*ast.DeferStmt
 	Reads   int // number of buffer accesses performed so far (orders defers against reads)
 	DeferAt []int
+	Locals  map[string]*bvVal // final values of the named locals (filled when the function ends)
 }
 
 type cloneMemo struct {
@@ -130,7 +135,7 @@ func (m *cloneMemo) buf(b *bvBuf) *bvBuf {
 	if n, ok := m.bufs[b]; ok {
 		return n
 	}
-	n := &bvBuf{Name: b.Name, Sym: b.Sym, Cells: map[string]BV{}, Len: b.Len, Zero: b.Zero}
+	n := &bvBuf{Name: b.Name, Sym: b.Sym, Cells: map[string]BV{}, Len: b.Len, Zero: b.Zero, Havoc: b.Havoc, HavocFrom: b.HavocFrom}
 	for k, v := range b.Cells {
 		n.Cells[k] = v
 	}
@@ -228,9 +233,16 @@ type bvInterp struct {
 	info  *types.Info
 	recv  types.Object
 	depth int
+	// tolerant: statements and calls outside the bit-level language do not make the path undecided; everything
+	// they may assign is forgotten instead (locals, receiver fields, buffer bytes at or above the lowest offset
+	// they can reach). Used where only a few bytes/fields of a larger function are examined (C09).
+	tolerant bool
 }
 
 func (bi *bvInterp) undec(p *bvPath, pos token.Pos, f string, a ...any) {
+	if bi.tolerant {
+		return
+	}
 	p.Undec = append(p.Undec, bi.w.Pos(pos)+": "+fmt.Sprintf(f, a...))
 }
 
@@ -319,6 +331,14 @@ func (bi *bvInterp) run(ctx *bvCtx, recv map[string]BV, recvSub map[string]*bvVa
 	}
 	out := bi.block([]*bvPath{p}, fi.Decl.Body.List)
 	for _, q := range out {
+		if depth == 0 {
+			q.Locals = map[string]*bvVal{}
+			for o, v := range q.Vars {
+				if o != nil {
+					q.Locals[o.Name()] = v
+				}
+			}
+		}
 		if !q.Done {
 			q.Done = true
 			if fi.Decl.Type.Results != nil {
@@ -491,6 +511,18 @@ func (bi *bvInterp) stmt(p *bvPath, s ast.Stmt) []*bvPath {
 			}
 			return []*bvPath{p}
 		}
+		if bi.tolerant {
+			if known, val := bi.decide(p, x.Cond); known {
+				bi.expr(p, x.Cond)
+				if val {
+					return bi.block([]*bvPath{p}, x.Body.List)
+				}
+				if x.Else != nil {
+					return bi.stmt(p, x.Else)
+				}
+				return []*bvPath{p}
+			}
+		}
 		cond := bi.expr(p, x.Cond) // evaluated once, in the common prefix
 		pt, pf := p.clone(), p.clone()
 		cs := types.ExprString(x.Cond)
@@ -519,6 +551,10 @@ func (bi *bvInterp) stmt(p *bvPath, s ast.Stmt) []*bvPath {
 			out = append(out, pf)
 		}
 		return out
+	}
+	if bi.tolerant {
+		bi.havocStmt(p, s)
+		return []*bvPath{p}
 	}
 	bi.undec(p, s.Pos(), "statement %T outside the bit-level language", s)
 	return []*bvPath{p}
@@ -642,6 +678,22 @@ func (bi *bvInterp) assign(p *bvPath, l ast.Expr, v *bvVal) {
 			}
 		}
 	}
+	if bi.tolerant {
+		if ix, ok := l.(*ast.IndexExpr); ok {
+			if bv := bi.expr(p, ix.X); bv != nil && bv.View != nil {
+				iv := bi.expr(p, ix.Index)
+				if iv.isInt() {
+					if il := p.Ctx.linOf(iv.BV); il != nil {
+						// a byte the engine cannot evaluate, at a known place
+						bv.View.Buf.Cells[bv.View.Base.Add(il).String()] = topBV(8, false, "assigned a value outside the bit-level language")
+						return
+					}
+				}
+				bi.havocView(p, bv.View)
+			}
+		}
+		return
+	}
 	bi.undec(p, l.Pos(), "assignment target outside the bit-level language")
 }
 
@@ -717,6 +769,11 @@ func (bi *bvInterp) cell(p *bvPath, v *bvView, idx *Term) (BV, bool) {
 	k := abs.String()
 	if c, ok := v.Buf.Cells[k]; ok {
 		return c, true
+	}
+	if v.Buf.Havoc {
+		if !abs.IsConst() || abs.C >= v.Buf.HavocFrom {
+			return BV{}, false
+		}
 	}
 	if v.Buf.Zero {
 		return constBV(0, 8, false), true
@@ -1050,8 +1107,17 @@ func (bi *bvInterp) call(p *bvPath, x *ast.CallExpr) *bvVal {
 							return &bvVal{View: &bvView{Buf: b, Base: Const(0)}}
 						}
 					}
+					if bi.tolerant {
+						return &bvVal{View: &bvView{Buf: &bvBuf{Name: "made", Cells: map[string]BV{}, Zero: true}, Base: Const(0)}}
+					}
 				}
 				return &bvVal{Opaque: "make"}
+			case "copy":
+				if bi.tolerant && len(x.Args) == 2 {
+					dst, src := bi.expr(p, x.Args[0]), bi.expr(p, x.Args[1])
+					bi.copyInto(p, dst, src)
+					return &bvVal{Opaque: "copy"}
+				}
 			case "recover", "panic", "print", "println":
 				return &bvVal{Opaque: b.Name()}
 			}
@@ -1070,7 +1136,7 @@ func (bi *bvInterp) call(p *bvPath, x *ast.CallExpr) *bvVal {
 	}
 	if callee == nil {
 		for _, a := range x.Args {
-			bi.expr(p, a)
+			bi.havocArg(p, bi.expr(p, a))
 		}
 		return &bvVal{Opaque: "call"}
 	}
@@ -1093,6 +1159,9 @@ func (bi *bvInterp) call(p *bvPath, x *ast.CallExpr) *bvVal {
 				if strings.HasPrefix(callee.Name(), "Put") && len(x.Args) == 2 {
 					v := bi.expr(p, x.Args[1])
 					if !v.isInt() {
+						for k := 0; k < n; k++ {
+							src.View.Buf.Cells[src.View.Base.AddC(int64(k)).String()] = topBV(8, false, "put of a value outside the bit-level language")
+						}
 						return &bvVal{Opaque: "put of opaque"}
 					}
 					bv := p.Ctx.convert(v.BV, n*8, false)
@@ -1121,8 +1190,20 @@ func (bi *bvInterp) call(p *bvPath, x *ast.CallExpr) *bvVal {
 				return &bvVal{BV: p.Ctx.fixLin(r)}
 			}
 		}
+		if bi.tolerant && callee.Name() == "Read" && len(x.Args) == 3 {
+			if u, ok := unparen(x.Args[2]).(*ast.UnaryExpr); ok && u.Op == token.AND {
+				if w, sg, ok := typeBits(bi.info.TypeOf(u.X)); ok {
+					p.Reads++
+					v := srcBV(fmt.Sprintf("read#%d", p.Reads), w, w, sg)
+					v.Lin = nil
+					bi.assign(p, u.X, &bvVal{BV: v})
+					return &bvVal{Opaque: "ident:nil"}
+				}
+				bi.assign(p, u.X, &bvVal{Opaque: "binary.Read"})
+			}
+		}
 		for _, a := range x.Args {
-			bi.expr(p, a)
+			bi.havocArg(p, bi.expr(p, a))
 		}
 		return &bvVal{Opaque: "binary." + callee.Name()}
 	}
@@ -1186,11 +1267,25 @@ func (bi *bvInterp) call(p *bvPath, x *ast.CallExpr) *bvVal {
 	fi := bi.w.FuncOf(callee)
 	if fi == nil {
 		for _, a := range x.Args {
-			bi.expr(p, a)
+			v := bi.expr(p, a)
+			if pkg != "net" && pkg != "errors" && pkg != "fmt" {
+				bi.havocArg(p, v)
+			}
+		}
+		if bi.tolerant && pkg == "net" && len(x.Args) == 0 && recvExpr != nil && (callee.Name() == "To4" || callee.Name() == "To16") {
+			// a view of the address bytes: contents unknown, length as the name says
+			n := int64(4)
+			if callee.Name() == "To16" {
+				n = 16
+			}
+			return &bvVal{View: &bvView{Buf: &bvBuf{Name: types.ExprString(recvExpr) + "." + callee.Name(), Sym: true, Cells: map[string]BV{}, Len: Const(n)}, Base: Const(0)}}
 		}
 		return &bvVal{Opaque: "call:" + callee.FullName()}
 	}
 	if bi.depth >= 4 {
+		if bi.tolerant {
+			bi.havocCallEffects(p, x, recvExpr)
+		}
 		return &bvVal{Opaque: "call depth"}
 	}
 	var args []*bvVal
@@ -1212,8 +1307,96 @@ func (bi *bvInterp) call(p *bvPath, x *ast.CallExpr) *bvVal {
 			}
 		}
 	}
-	sub := &bvInterp{w: bi.w, fi: fi, info: fi.Pkg.TypesInfo}
-	outs := sub.run(p.Ctx.clone(), recv, recvSub, args, bi.depth+1, p)
+	sub := &bvInterp{w: bi.w, fi: fi, info: fi.Pkg.TypesInfo, tolerant: bi.tolerant}
+	var outs []*bvPath
+	if bi.tolerant {
+		// run on copies: a callee that turns out to branch must leave nothing half-updated behind
+		pc := p.clone()
+		crecv, crecvSub := map[string]BV{}, map[string]*bvVal{}
+		switch {
+		case self:
+			crecv, crecvSub = pc.Recv, pc.RecvSub
+		case target != nil:
+			for k, v := range recv {
+				crecv[k] = v
+			}
+			for k, v := range recvSub {
+				crecvSub[k] = v
+			}
+		}
+		var cargs []*bvVal
+		m := &cloneMemo{vals: map[*bvVal]*bvVal{}, bufs: map[*bvBuf]*bvBuf{}, outs: map[*bvOut]*bvOut{}}
+		for _, a := range args {
+			cargs = append(cargs, m.val(a))
+		}
+		trial := sub.run(p.Ctx.clone(), crecv, crecvSub, cargs, bi.depth+1, pc)
+		okIdx := -1
+		if len(trial) > 1 {
+			// exactly one path reports success (returns a nil error): the paths examined are those on which every
+			// child step succeeded, so its effects are the callee's effects
+			nOK := 0
+			for i, o := range trial {
+				if n := len(o.Ret); n > 0 && o.Ret[n-1] != nil && o.Ret[n-1].Opaque == "ident:nil" {
+					if isErrorResult(fi) {
+						nOK++
+						okIdx = i
+					}
+				}
+			}
+			if nOK != 1 {
+				okIdx = -1
+			}
+		}
+		if okIdx >= 0 {
+			real := sub.run(p.Ctx.clone(), recv, recvSub, args, bi.depth+1, p)
+			if len(real) == len(trial) {
+				outs = []*bvPath{real[okIdx]}
+			}
+		}
+		if len(trial) != 1 && outs == nil {
+			// forget what the callee may assign
+			bi.havocCallEffects(p, x, recvExpr)
+			if self || target != nil {
+				fields := map[string]bool{}
+				for _, o := range trial {
+					for _, f := range o.Stores {
+						fields[f] = true
+					}
+				}
+				for f := range fields {
+					if self {
+						if old, ok := p.Recv[f]; ok {
+							p.Recv[f] = topBV(old.W, old.Signed, "assigned on some path of "+fi.Key)
+						}
+						delete(p.RecvSub, f)
+					} else if old, ok := target.Fields[f]; ok {
+						target.Fields[f] = topBV(old.W, old.Signed, "assigned on some path of "+fi.Key)
+					}
+				}
+			}
+			// a result every path agrees on survives (size functions returning a constant)
+			var r0 *bvVal
+			same := true
+			for _, o := range trial {
+				if len(o.Ret) == 0 || o.Ret[0] == nil || !o.Ret[0].isInt() {
+					same = false
+					break
+				}
+				if r0 == nil {
+					r0 = o.Ret[0]
+				} else if r0.BV.String() != o.Ret[0].BV.String() {
+					same = false
+				}
+			}
+			if same && r0 != nil {
+				return r0
+			}
+			return &bvVal{Opaque: "multi-path call"}
+		}
+	}
+	if outs == nil {
+		outs = sub.run(p.Ctx.clone(), recv, recvSub, args, bi.depth+1, p)
+	}
 	if len(outs) != 1 {
 		bi.undec(p, x.Pos(), "call to %s has %d paths (only single-path helpers are inlined)", fi.Key, len(outs))
 		return &bvVal{Opaque: "multi-path call"}
@@ -1363,4 +1546,352 @@ func (bi *bvInterp) bigCall(p *bvPath, x *ast.CallExpr, callee *types.Func, recv
 		return unknown("big " + callee.Name() + " outside the closed forms")
 	}
 	return nil
+}
+
+// ---------------------------------------------------------------- tolerant mode
+
+// havocBuf forgets the bytes at absolute offsets >= from.
+func havocBuf(b *bvBuf, from int64) {
+	if b == nil {
+		return
+	}
+	if from < 0 {
+		from = 0
+	}
+	for k := range b.Cells {
+		var c int64
+		if _, err := fmt.Sscan(k, &c); err != nil || fmt.Sprint(c) != k || c >= from {
+			delete(b.Cells, k)
+		}
+	}
+	if !b.Havoc || from < b.HavocFrom {
+		b.Havoc, b.HavocFrom = true, from
+	}
+}
+
+// havocView forgets what a callee or an unfollowed statement may write through the view.
+func (bi *bvInterp) havocView(p *bvPath, v *bvView) {
+	if v == nil {
+		return
+	}
+	from := int64(0)
+	if v.Base != nil {
+		if lb, ok := p.Ctx.lowerBound(v.Base); ok {
+			from = lb
+		}
+	}
+	havocBuf(v.Buf, from)
+}
+
+func (bi *bvInterp) havocArg(p *bvPath, v *bvVal) {
+	if !bi.tolerant || v == nil {
+		return
+	}
+	if v.View != nil {
+		bi.havocView(p, v.View)
+	}
+}
+
+// havocCallEffects: a call that was not followed may write through any buffer it is handed.
+func (bi *bvInterp) havocCallEffects(p *bvPath, x *ast.CallExpr, recvExpr ast.Expr) {
+	for _, a := range x.Args {
+		bi.havocArg(p, bi.expr(p, a))
+	}
+}
+
+// copyInto models copy(dst, src) for byte views.
+func (bi *bvInterp) copyInto(p *bvPath, dst, src *bvVal) {
+	if dst == nil || dst.View == nil {
+		return
+	}
+	if src != nil && src.View != nil {
+		if l := src.View.length(); l != nil && l.IsConst() && l.C <= 64 && dst.View.Base.IsConst() {
+			dl := dst.View.length()
+			if dl == nil || (dl.IsConst() && dl.C >= l.C) || p.Ctx.prove(l, dl) {
+				for k := int64(0); k < l.C; k++ {
+					c, ok := bi.cell(p, src.View, Const(k))
+					key := dst.View.Base.AddC(k).String()
+					if ok {
+						dst.View.Buf.Cells[key] = c
+					} else {
+						dst.View.Buf.Cells[key] = topBV(8, false, "copied from bytes the engine does not know")
+					}
+				}
+				return
+			}
+		}
+	}
+	bi.havocView(p, dst.View)
+}
+
+// havocStmt forgets everything a statement outside the language (loops, switches, …) may assign.
+func (bi *bvInterp) havocStmt(p *bvPath, s ast.Stmt) {
+	// cursors that only grow inside the statement keep their current value as a lower bound
+	grows := map[types.Object]bool{}
+	shrinks := map[types.Object]bool{}
+	nonneg := func(e ast.Expr) bool {
+		e = unparen(e)
+		if tv, ok := bi.info.Types[e]; ok && tv.Value != nil {
+			if v, ok := constant.Int64Val(tv.Value); ok {
+				return v >= 0
+			}
+		}
+		t := bi.info.TypeOf(e)
+		if c, ok := e.(*ast.CallExpr); ok {
+			if id, ok := unparen(c.Fun).(*ast.Ident); ok && id.Name == "len" {
+				return true
+			}
+			// conversion of an unsigned value
+			if len(c.Args) == 1 {
+				if tv, ok := bi.info.Types[c.Fun]; ok && tv.IsType() {
+					if _, uns := intBits(bi.info.TypeOf(c.Args[0])); uns {
+						return true
+					}
+				}
+			}
+		}
+		if t != nil {
+			if w, uns := intBits(t); w > 0 && uns {
+				return true
+			}
+		}
+		return false
+	}
+	ast.Inspect(s, func(n ast.Node) bool {
+		switch x := n.(type) {
+		case *ast.AssignStmt:
+			for i, l := range x.Lhs {
+				id, ok := unparen(l).(*ast.Ident)
+				if !ok {
+					continue
+				}
+				o := bi.obj(id)
+				if o == nil {
+					continue
+				}
+				if x.Tok == token.ADD_ASSIGN && i < len(x.Rhs) && nonneg(x.Rhs[i]) {
+					grows[o] = true
+				} else {
+					shrinks[o] = true
+				}
+			}
+		case *ast.IncDecStmt:
+			if id, ok := unparen(x.X).(*ast.Ident); ok {
+				if o := bi.obj(id); o != nil {
+					if x.Tok == token.INC {
+						grows[o] = true
+					} else {
+						shrinks[o] = true
+					}
+				}
+			}
+		case *ast.RangeStmt:
+			for _, e := range []ast.Expr{x.Key, x.Value} {
+				if id, ok := e.(*ast.Ident); ok && id.Name != "_" {
+					if o := bi.obj(id); o != nil {
+						shrinks[o] = true
+					}
+				}
+			}
+		}
+		return true
+	})
+	// lower bound of an index/slice-low expression evaluated in the state before the statement
+	lowOf := func(e ast.Expr) (int64, bool) {
+		if e == nil {
+			return 0, true
+		}
+		bad := false
+		ast.Inspect(e, func(n ast.Node) bool {
+			if id, ok := n.(*ast.Ident); ok {
+				if o := bi.obj(id); o != nil && shrinks[o] {
+					bad = true
+				}
+			}
+			if _, ok := n.(*ast.CallExpr); ok {
+				bad = true
+			}
+			return true
+		})
+		if bad {
+			return 0, false
+		}
+		v := bi.expr(p, e)
+		if !v.isInt() {
+			return 0, false
+		}
+		l := p.Ctx.linOf(v.BV)
+		if l == nil {
+			return 0, false
+		}
+		return p.Ctx.lowerBound(l)
+	}
+	touch := func(bufExpr ast.Expr, low ast.Expr) {
+		bv := bi.expr(p, bufExpr)
+		if bv == nil || bv.View == nil {
+			return
+		}
+		from := int64(0)
+		if base, ok := p.Ctx.lowerBound(bv.View.Base); ok {
+			from = base
+		}
+		if lb, ok := lowOf(low); ok {
+			from += lb
+		}
+		havocBuf(bv.View.Buf, from)
+	}
+	var viewArg func(e ast.Expr)
+	viewArg = func(e ast.Expr) {
+		e = unparen(e)
+		switch x := e.(type) {
+		case *ast.SliceExpr:
+			if !isByteSlice(bi.info.TypeOf(x.X)) {
+				if _, ok := isByteArray(bi.info.TypeOf(x.X)); !ok {
+					return
+				}
+			}
+			touch(x.X, x.Low)
+		case *ast.Ident, *ast.SelectorExpr:
+			if t := bi.info.TypeOf(e); t != nil && isByteSlice(t) {
+				touch(e, nil)
+			}
+		}
+	}
+	// 1. buffers
+	ast.Inspect(s, func(n ast.Node) bool {
+		switch x := n.(type) {
+		case *ast.AssignStmt:
+			for _, l := range x.Lhs {
+				if ix, ok := unparen(l).(*ast.IndexExpr); ok {
+					if t := bi.info.TypeOf(ix.X); t != nil && (isByteSlice(t) || func() bool { _, ok := isByteArray(t); return ok }()) {
+						touch(ix.X, ix.Index)
+					}
+				}
+			}
+		case *ast.CallExpr:
+			for _, a := range x.Args {
+				viewArg(a)
+			}
+		}
+		return true
+	})
+	// 2. locals and receiver fields
+	ast.Inspect(s, func(n ast.Node) bool {
+		forget := func(l ast.Expr) {
+			l = unparen(l)
+			if id, ok := l.(*ast.Ident); ok && id.Name != "_" {
+				if o := bi.obj(id); o != nil {
+					if w, sg, ok := typeBits(o.Type()); ok {
+						p.Vars[o] = &bvVal{BV: topBV(w, sg, "assigned inside a statement the engine does not follow")}
+					} else {
+						p.Vars[o] = &bvVal{Opaque: "havoc"}
+					}
+				}
+				return
+			}
+			// recv.f, recv.f.g, recv.f[i] …: forget the top-level field
+			e := l
+			for {
+				switch x := e.(type) {
+				case *ast.SelectorExpr:
+					if f, ok := bi.recvField(x); ok {
+						if old, ok := p.Recv[f]; ok {
+							p.Recv[f] = topBV(old.W, old.Signed, "assigned inside a statement the engine does not follow")
+						}
+						delete(p.RecvSub, f)
+						p.Stores = append(p.Stores, f)
+						return
+					}
+					e = unparen(x.X)
+					continue
+				case *ast.IndexExpr:
+					e = unparen(x.X)
+					continue
+				case *ast.StarExpr:
+					e = unparen(x.X)
+					continue
+				}
+				return
+			}
+		}
+		switch x := n.(type) {
+		case *ast.AssignStmt:
+			for _, l := range x.Lhs {
+				forget(l)
+			}
+		case *ast.IncDecStmt:
+			forget(x.X)
+		case *ast.RangeStmt:
+			if x.Key != nil {
+				forget(x.Key)
+			}
+			if x.Value != nil {
+				forget(x.Value)
+			}
+		case *ast.CallExpr:
+			// a method called on a field of the receiver may rewrite that field
+			if se, ok := unparen(x.Fun).(*ast.SelectorExpr); ok {
+				if _, isMethod := bi.info.Selections[se]; isMethod {
+					forget(se.X)
+				}
+			}
+		}
+		return true
+	})
+}
+
+// decide: a comparison of two linear values that the path's facts settle.
+func (bi *bvInterp) decide(p *bvPath, cond ast.Expr) (known, val bool) {
+	x, ok := unparen(cond).(*ast.BinaryExpr)
+	if !ok {
+		return false, false
+	}
+	switch x.Op {
+	case token.LSS, token.LEQ, token.GTR, token.GEQ:
+	default:
+		return false, false
+	}
+	q := p.clone()
+	q.Sites = nil
+	av, bv := bi.expr(q, x.X), bi.expr(q, x.Y)
+	if !av.isInt() || !bv.isInt() {
+		return false, false
+	}
+	a, b := p.Ctx.linOf(av.BV), p.Ctx.linOf(bv.BV)
+	if a == nil || b == nil {
+		return false, false
+	}
+	// normalise to a <= b / a < b
+	strict := x.Op == token.LSS || x.Op == token.GTR
+	if x.Op == token.GTR || x.Op == token.GEQ {
+		a, b = b, a
+	}
+	if strict {
+		if p.Ctx.prove(a.AddC(1), b) {
+			return true, true
+		}
+		if p.Ctx.prove(b, a) {
+			return true, false
+		}
+		return false, false
+	}
+	if p.Ctx.prove(a, b) {
+		return true, true
+	}
+	if p.Ctx.prove(b.AddC(1), a) {
+		return true, false
+	}
+	return false, false
+}
+
+func isErrorResult(fi *FuncInfo) bool {
+	if fi == nil || fi.Decl.Type.Results == nil {
+		return false
+	}
+	l := fi.Decl.Type.Results.List
+	if len(l) == 0 {
+		return false
+	}
+	id, ok := l[len(l)-1].Type.(*ast.Ident)
+	return ok && id.Name == "error"
 }
